@@ -1910,3 +1910,133 @@ func ruleDIVZERO(w *World, r *Report, pkgs ...string) {
 	}
 	r.stat("divzero_sites", n)
 }
+
+// ---------------------------------------------------------------------------
+// DCHECKSKIP: the double check skips the recovery blocks that were not loaded
+
+const ruleDCHECKSKIPText = "the parity double check compares only blocks that were loaded: in (*par2.Decoder).Repair every comparison (reflect.DeepEqual / bytes.Equal) one side of which is an element of d.parityShards is made only where that very element is known non-empty (len != 0 or != nil) - the table is indexed by exponent and has nil holes for exponents not present, and a hole compared with the recomputed block makes a successful reconstruction end in 'repair failed'"
+
+func ruleDCHECKSKIP(w *World, r *Report) {
+	r.rule("DCHECKSKIP", ruleDCHECKSKIPText)
+	fn := w.Fn("(*par2.Decoder).Repair")
+	if fn == nil {
+		r.unk("DCHECKSKIP", "Repair", "", "(*par2.Decoder).Repair not found")
+		return
+	}
+	n := 0
+	for _, f := range region(fn) {
+		for _, c := range callInstrs(f) {
+			cn := calleeName(c.Common())
+			if cn != "reflect.DeepEqual" && cn != "bytes.Equal" {
+				continue
+			}
+			if len(c.Common().Args) != 2 {
+				continue
+			}
+			var loaded ssa.Value
+			for _, a := range c.Common().Args {
+				v := stripAllConv(a)
+				if mi, ok := v.(*ssa.MakeInterface); ok {
+					v = stripAllConv(mi.X)
+				}
+				if strings.HasSuffix(chainPath(w.up(v), 0), ".parityShards[*]") {
+					loaded = v
+				}
+			}
+			if loaded == nil {
+				continue
+			}
+			n++
+			key := fmt.Sprintf("%s:compare#%d", shortName(f), n-1)
+			ok := false
+			for _, cm := range w.factsAt(c) {
+				if cm.Y == nil {
+					continue
+				}
+				for _, pr := range [][2]ssa.Value{{cm.X, cm.Y}, {cm.Y, cm.X}} {
+					x := stripAllConv(pr[0])
+					if lc := isBuiltinCall(x, "len"); lc != nil {
+						if z, isC := constInt(pr[1]); isC && z == 0 && (cm.Op == token.NEQ || cm.Op == token.GTR) && stripAllConv(lc.Call.Args[0]) == loaded {
+							ok = true
+						}
+					}
+					if x == loaded && isNilConst(pr[1]) && cm.Op == token.NEQ {
+						ok = true
+					}
+				}
+				// swapped orientation 0 < len(x)
+				if lc := isBuiltinCall(stripAllConv(cm.Y), "len"); lc != nil {
+					if z, isC := constInt(cm.X); isC && z == 0 && cm.Op == token.LSS && stripAllConv(lc.Call.Args[0]) == loaded {
+						ok = true
+					}
+				}
+			}
+			if ok {
+				r.ok("DCHECKSKIP", key, w.ipos(c), "the loaded block compared is known non-empty here")
+			} else {
+				r.bad("DCHECKSKIP", key, w.ipos(c), "an element of d.parityShards is compared with the recomputed block without having been found non-empty: a hole in the exponent table makes a successful reconstruction fail the double check")
+			}
+		}
+	}
+	r.floor("DCHECKSKIP", "double-check comparisons in par2 Repair", n, 1)
+}
+
+// ---------------------------------------------------------------------------
+// WRITELOOP: success is not declared before the write loop has run
+
+const ruleWRITELOOPText = "Repair cannot succeed without having looked at every file: in (*par2.Decoder).Repair every return with a nil error lies behind the loop that writes the files found not OK (the loop's header dominates it and it is not inside the loop) - a file all of whose slices were found elsewhere needs no recovery block but does need rewriting, so 'no recovery blocks loaded' is no reason to return early"
+
+func ruleWRITELOOP(w *World, r *Report) {
+	r.rule("WRITELOOP", ruleWRITELOOPText)
+	fn := w.Fn("(*par2.Decoder).Repair")
+	if fn == nil {
+		r.unk("WRITELOOP", "Repair", "", "(*par2.Decoder).Repair not found")
+		return
+	}
+	// the write loop: the outermost loop of Repair that contains (directly or through a private helper) a WriteFile
+	var wl *natLoop
+	loops := naturalLoops(fn)
+	for _, b := range fn.Blocks {
+		for _, in := range b.Instrs {
+			c, ok := in.(ssa.CallInstruction)
+			if !ok {
+				continue
+			}
+			writes := isInvokeOf(c.Common(), "WriteFile", "par2")
+			if g := c.Common().StaticCallee(); !writes && g != nil && g != fn && inRegion(fn, g) {
+				for _, ic := range callInstrs(g) {
+					if isInvokeOf(ic.Common(), "WriteFile", "par2") {
+						writes = true
+					}
+				}
+			}
+			if !writes {
+				continue
+			}
+			for _, l := range loops {
+				if l.body[b] && (wl == nil || len(l.body) > len(wl.body)) {
+					wl = l
+				}
+			}
+		}
+	}
+	if wl == nil {
+		r.unk("WRITELOOP", "Repair:write-loop", w.pos(fn.Pos()), "no loop containing a WriteFile call found")
+		return
+	}
+	n := 0
+	for _, b := range fn.Blocks {
+		ret, ok := b.Instrs[len(b.Instrs)-1].(*ssa.Return)
+		if !ok || len(ret.Results) == 0 || !isNilConst(ret.Results[len(ret.Results)-1]) {
+			continue
+		}
+		n++
+		key := fmt.Sprintf("Repair:success-return#%d", n-1)
+		if wl.head.Dominates(b) && !wl.body[b] {
+			r.ok("WRITELOOP", key, w.ipos(ret), "behind the write loop")
+		} else {
+			r.bad("WRITELOOP", key, w.ipos(ret), "Repair can return success without reaching the loop that rewrites the files found not OK: a file whose slices were all found but which is wrong as a whole stays damaged")
+		}
+	}
+	r.floor("WRITELOOP", "success returns of par2 Repair", n, 1)
+}
